@@ -137,6 +137,9 @@ class ExprMixin:
         if attr == "scheme" and (o.ty or "") == "ref:ParseResult":
             yield st, self.o.str_(w.fun("url_scheme", "str", "str")(V.s(st.rd("$ipsrc", self.o.r(o)))))
             return
+        if attr == "max_prefixlen" and (o.ty or "") in ("ref:IPv4Network", "ref:IPv4Address"):
+            yield st, self.o.int_(z3.IntVal(32))
+            return
         if attr == "prefixlen" and (o.ty or "") == "ref:IPv4Network":
             from .builtins_spec import ip_funs
             n = ip_funs(w, "net")[2](V.s(st.rd("$ipsrc", self.o.r(o))))
